@@ -376,6 +376,77 @@ pub fn oracles(cases: &[EnumCase], rep: &mut Report) {
     let _ = std::fs::remove_dir_all(&dir);
 }
 
+/// Attributes on single variants (a rename, a backend-conditional rename, documentation links): every variant keeps its
+/// own name and value — the renamed one under its new name where the backend renders renames — and converts back.
+fn variant_attr_probe(rep: &mut Report) {
+    let src = "#[diplomat::bridge]\nmod ffi {\n    pub enum Tone {\n        Soft = 3,\n        #[diplomat::attr(*, rename = \"Mellow\")]\n        Warm = 1,\n        Loud = 8,\n        Harsh = 7,\n    }\n    pub enum Tail {\n        #[diplomat::attr(dart, rename = \"Erste\")]\n        /// first\n        First,\n        #[diplomat::rust_link(core::option::Option, Enum)]\n        Second = -4,\n        Third,\n        #[diplomat::attr(*, rename = \"Final\")]\n        Last = 40,\n    }\n    impl Tone { pub fn rt(self, o: Tone) -> Tone { o } }\n    impl Tail { pub fn rt(self, o: Tail) -> Tail { o } }\n}\n";
+    // (enum, Rust variant, binding-side name where renames are rendered, value)
+    let table: [(&str, &str, &str, i32); 8] = [("Tone", "Soft", "Soft", 3), ("Tone", "Warm", "Mellow", 1), ("Tone", "Loud", "Loud", 8), ("Tone", "Harsh", "Harsh", 7), ("Tail", "First", "First", 0), ("Tail", "Second", "Second", -4), ("Tail", "Third", "Third", -3), ("Tail", "Last", "Final", 40)];
+    let case = "(c11 probe variant-attributes)";
+    let dir = util::workdir("C11attrs");
+    let expect: String = table.iter().map(|(e, _, b, v)| format!("{e} {b} {v}\n")).collect();
+    let expect_c: String = table.iter().map(|(e, r, _, v)| format!("{e} {r} {v}\n")).collect();
+    rep.count("probe:variant-attributes");
+    // C
+    let o = tool::run_backend(src, "c");
+    rep.oracle_runs += 1;
+    if o.ok() {
+        util::write_files(&dir.join("c"), &o.files);
+        let mut prog = String::from("#include <stdio.h>\n#include \"Tone.h\"\n#include \"Tail.h\"\nint main(void) {\n");
+        for (e, r, _, _) in table { prog += &format!("  printf(\"{e} {r} %d\\n\", (int){e}_{r});\n"); }
+        prog += "  return 0;\n}\n";
+        std::fs::write(dir.join("c/main.c"), prog).unwrap();
+        let (ok, _, err) = util::run(Command::new("gcc").args(["-std=c11", "-I"]).arg(dir.join("c")).arg("-o").arg(dir.join("c/main")).arg(dir.join("c/main.c")));
+        let out = if ok { util::run(&mut Command::new(dir.join("c/main"))).1 } else { format!("compile error: {}", err.lines().filter(|l| l.contains("error")).take(3).collect::<Vec<_>>().join(" | ")) };
+        if out != expect_c { rep.oracle_fail(case, "c", json!({"got": out, "expected": expect_c, "source": src})); }
+    } else { rep.oracle_fail(case, "c-run", json!(o.status())); }
+    // C++
+    let o = tool::run_backend(src, "cpp");
+    rep.oracle_runs += 1;
+    if o.ok() {
+        util::write_files(&dir.join("cpp"), &o.files);
+        let mut prog = String::from("#include <cstdio>\n#include \"Tone.hpp\"\n#include \"Tail.hpp\"\nint main() {\n");
+        for (e, r, b, _) in table {
+            prog += &format!("  std::printf(\"{e} {b} %d\\n\", (int){e}({e}::{b}).AsFFI());\n  if (!({e}::FromFFI(diplomat::capi::{e}_{r}) == {e}::{b})) std::printf(\"{e} {b} fromffi-mismatch\\n\");\n");
+        }
+        prog += "  return 0;\n}\n";
+        std::fs::write(dir.join("cpp/main.cpp"), prog).unwrap();
+        let (ok, _, err) = util::run(Command::new("g++").args(["-std=c++17", "-I"]).arg(dir.join("cpp")).arg("-o").arg(dir.join("cpp/main")).arg(dir.join("cpp/main.cpp")));
+        let out = if ok { util::run(&mut Command::new(dir.join("cpp/main"))).1 } else { format!("compile error: {}", err.lines().filter(|l| l.contains("error")).take(3).collect::<Vec<_>>().join(" | ")) };
+        if out != expect { rep.oracle_fail(case, "cpp", json!({"got": out, "expected": expect, "source": src})); }
+    } else { rep.oracle_fail(case, "cpp-run", json!(o.status())); }
+    // JS
+    let o = tool::run_backend(src, "js");
+    rep.oracle_runs += 1;
+    if o.ok() {
+        util::write_files(&dir.join("js"), &o.files);
+        std::fs::write(dir.join("js/diplomat-wasm.mjs"), "export default {};\n").unwrap();
+        let mut prog = String::from("import * as diplomatRuntime from './diplomat-runtime.mjs';\nimport { Tone } from './Tone.mjs';\nimport { Tail } from './Tail.mjs';\n");
+        for (e, _, b, _) in table {
+            prog += &format!("try {{ console.log('{e} {b} ' + {e}.{b}.ffiValue); const o = new {e}(diplomatRuntime.internalConstructor, {e}.{b}.ffiValue); if (o !== {e}.{b} || o.value !== '{b}' || {e}.fromValue('{b}') !== {e}.{b}) console.log('{e} {b} fromffi-mismatch ' + (o && o.value)); }} catch (err) {{ console.log('{e} {b} threw:' + String(err).replace(/\\s+/g, '_')); }}\n");
+        }
+        prog += "console.log('entries ' + [...Tone.getAllEntries()].length + ' ' + [...Tail.getAllEntries()].length);\n";
+        std::fs::write(dir.join("js/main.mjs"), prog).unwrap();
+        let (_ok, out, err) = util::run(Command::new("node").arg(dir.join("js/main.mjs")));
+        let want = format!("{expect}entries 4 4\n");
+        if out != want { rep.oracle_fail(case, "js", json!({"got": out, "expected": want, "stderr": err.lines().take(3).collect::<Vec<_>>(), "source": src})); }
+    } else { rep.oracle_fail(case, "js-run", json!(o.status())); }
+    // Dart / Kotlin / Python: four distinct entries per enum, with these values (text)
+    for (backend, file_pat) in [("dart", ".g.dart"), ("kotlin", ".kt"), ("nanobind", "_ext.cpp")] {
+        let o = tool::run_backend(src, backend);
+        rep.oracle_runs += 1;
+        if !o.ok() { rep.oracle_fail(case, &format!("{backend}-run"), json!(o.status())); continue; }
+        let text: String = o.files.iter().filter(|(k, _)| k.ends_with(file_pat)).map(|(_, v)| v.clone()).collect::<Vec<_>>().join("\n");
+        for (e, r, b, _) in table {
+            let names: Vec<String> = vec![r.to_string(), b.to_string(), { let mut c = r.chars(); c.next().map(|f| f.to_lowercase().collect::<String>() + c.as_str()).unwrap_or_default() }, { let mut c = b.chars(); c.next().map(|f| f.to_lowercase().collect::<String>() + c.as_str()).unwrap_or_default() }, "Erste".into(), "erste".into()];
+            if !names.iter().any(|n| crate::c06::contains_word(&text, n)) {
+                rep.oracle_fail(case, &format!("{backend}-variant-missing"), json!({"enum": e, "variant": r, "source": src}));
+            }
+        }
+    }
+    let _ = std::fs::remove_dir_all(&dir);
+}
+
 pub fn main(args: &[String]) {
     let a = util::parse_args(args);
     let mut rep = Report::new("C11");
@@ -432,6 +503,7 @@ pub fn main(args: &[String]) {
         .map(|(i, c)| EnumCase { name: format!("Or{}", util::letters(i)), vars: c.vars.clone() })
         .collect();
     oracles(&sample, &mut rep);
+    variant_attr_probe(&mut rep);
     // values travelling through memory: a struct field / option payload of enum type, written by rustc and read by
     // the generated JS (and the other way round), with negative and large discriminants
     {
